@@ -1045,7 +1045,7 @@ class CellSim(enginemod.Engine):
         ]
 
     def quick_runs(self, prop):
-        return 6400
+        return 9600
 
     def make_config(self, prop, tier, rng):
         return make_config(prop, tier, rng)
